@@ -213,8 +213,32 @@ theorem shipped_tokens_are_source_slices (E : Env) (src : List Nat) (hfin : (tok
     ∀ t ∈ (tokenize E XV.Driver.genPats src).toks, t.str = srcText (splitLines src []) t.start t.stop :=
   all_tokens_are_source_slices E _ gen_pseudo_progress gen_fstr_len gen_fstr_ends src hfin
 
+/-! ### C08: what the continuation branch skips (hypothesis `EndGap`) -/
+
+theorem end_branch_only_continuation_chars :
+    (XV.Gen.pseudoToken.filter (·.1 = "End")).all (fun b => onlyChars gapChar b.2) = true := by decide +kernel
+
+theorem gen_end_gap : EndGap XV.Driver.genPats := by
+  intro b hb hE
+  have h := end_branch_only_continuation_chars
+  rw [List.all_eq_true] at h
+  exact h b (by simp [List.mem_filter, hE]; exact hb)
+
+/-- **C08 (gaps), instantiated on the working tree's patterns** -/
+theorem shipped_gaps_are_indentation_or_continuation (E : Env) (src : List Nat) (hfin : (tokenize E XV.Driver.genPats src).err = none) :
+    Gaps (splitLines src []) ⟨1, 0⟩ (tokenize E XV.Driver.genPats src).toks :=
+  gaps_are_indentation_or_continuation E _ gen_pseudo_progress gen_fstr_len gen_fstr_ends gen_end_gap src hfin
+
 /-- Non-vacuity on the shipped patterns: `f"a{x:>{w}}b{f'{y}'}"⏎` finishes with 18 tokens, f-string parts included. -/
 example : (tokenize ⟨[], []⟩ XV.Driver.genPats ("f\"a{x:>{w}}b{f'{y}'}\"\n".toList.map Char.toNat)).err = none ∧
     (tokenize ⟨[], []⟩ XV.Driver.genPats ("f\"a{x:>{w}}b{f'{y}'}\"\n".toList.map Char.toNat)).toks.length = 18 := by decide +kernel
+
+
+/-- Non-vacuity of the gap theorem on the shipped patterns: in `if a:⏎  b⏎  c \⏎+ 1⏎` the gaps between consecutive tokens
+    are empty except the indentation of the third line and the backslash continuation. -/
+def gapSrc : List Nat := "if a:\n  b\n  c \\\n+ 1\n".toList.map Char.toNat
+example : (let ts := (tokenize ⟨[], []⟩ XV.Driver.genPats gapSrc).toks
+           (List.zip ts ts.tail).map (fun (a, b) => srcText (splitLines gapSrc []) a.stop b.start)) =
+    [[], [], [], [], [], [], [], [32, 32], [], [92, 10], [], [], [], [], []] := by decide +kernel
 
 end XVC
